@@ -744,6 +744,25 @@ fn apply_inherent_raw(op: &Op) -> Outcome {
             }),
             |x| x,
         ),
+        EntriesFollow(p) => res(
+            Stdfs::entries(p).and_then(|e| {
+                let mut out = vec![];
+                let mut budget = 10_000;
+                for x in e.follow(true).sort_by_name() {
+                    budget -= 1;
+                    if budget == 0 {
+                        out.push("<NONTERMINATING>".to_string());
+                        break;
+                    }
+                    match x {
+                        Ok(en) => out.push(render_entry(&en)),
+                        Err(er) => out.push(format!("Err({})", err_kind(&er))),
+                    }
+                }
+                Ok(out.join(";"))
+            }),
+            |x| x,
+        ),
         Entry(p) => res(Stdfs::entry(p), |e| render_entry(&e)),
         Exists(p) => Outcome::okv(Stdfs::exists(p).to_string()),
         Files(p) => res(Stdfs::files(p), |x| pv(&x)),
